@@ -23,6 +23,8 @@ func (g *genState) genRequests(step int, docs map[uuid.UUID]Val) []requestSpec {
 		return g.reqsC05(docs)
 	case "c06":
 		return g.reqsC06(docs)
+	case "c03":
+		return g.reqsC03(docs)
 	}
 	return nil
 }
@@ -365,7 +367,16 @@ func (g *genState) lowerTable(docs map[uuid.UUID]Val, reqs []requestSpec) string
 func (g *genState) extraObs(env *shardEnv, docs map[uuid.UUID]Val, reqs []requestSpec) []string {
 	var out []string
 	if g.profile == "c04" {
-		out = append(out, g.extrasC04(env, docs, reqs)...)
+		out = append(out, g.vecExtras(env, g.schema[0], "index/vectorFlat/"+g.schema[0].path, "flat", docs, reqs)...)
+	}
+	if g.profile == "c03" {
+		out = append(out, g.vecExtras(env, g.schema[0], "index/vectorVamana/"+g.schema[0].path, "vamana", docs, reqs)...)
+		out = append(out, dumpRaw(env, "index/vectorVamana/"+g.schema[0].path)...)
+		if x, err := dumpPoints(env); err == nil {
+			out = append(out, x...)
+		} else {
+			out = append(out, "(XNote 902)")
+		}
 	}
 	if g.profile == "c05" {
 		out = append(out, g.extrasC05(docs, reqs)...)
@@ -478,10 +489,8 @@ func valVec(v Val) ([]float32, bool) {
 
 // extrasC04: persisted quantiser parameters and harness-side reference distances
 // (haversine; product quantiser from the persisted centroids and codes).
-func (g *genState) extrasC04(env *shardEnv, docs map[uuid.UUID]Val, reqs []requestSpec) []string {
+func (g *genState) vecExtras(env *shardEnv, ix idxSpec, bucket string, qkind string, docs map[uuid.UUID]Val, reqs []requestSpec) []string {
 	var out []string
-	ix := g.schema[0]
-	bucket := "index/vectorFlat/" + ix.path
 	keys, vals, err := env.sh.VerifDumpBucket(bucket)
 	if err != nil {
 		return []string{"(XNote 903)"}
@@ -530,7 +539,7 @@ func (g *genState) extrasC04(env *shardEnv, docs map[uuid.UUID]Val, reqs []reque
 		metric = "euclidean" // the product quantiser replaces cosine by euclidean
 	}
 	for qi, rq := range reqs {
-		if rq.q.kind != "flat" {
+		if rq.q.kind != qkind {
 			continue
 		}
 		var items []string
@@ -814,6 +823,56 @@ func (g *genState) reqsC06(docs map[uuid.UUID]Val) []requestSpec {
 		for _, leaf := range rankingLeaves(q) {
 			out = append(out, requestSpec{q: leaf})
 		}
+	}
+	return out
+}
+
+func dumpRaw(env *shardEnv, bucket string) []string {
+	keys, vals, err := env.sh.VerifDumpBucket(bucket)
+	if err != nil {
+		return []string{"(XNote 905)"}
+	}
+	idx := make([]int, len(keys))
+	for i := range idx {
+		idx[i] = i
+	}
+	sort.Slice(idx, func(a, b int) bool { return string(keys[idx[a]]) < string(keys[idx[b]]) })
+	items := make([]string, len(keys))
+	for j, i := range idx {
+		items[j] = "(" + pB(keys[i]) + ", " + pB(vals[i]) + ")"
+	}
+	return []string{"(XBucket " + pS(bucket) + " " + pList(items) + ")"}
+}
+
+// C03: graph searches with limits, search sizes, weights and pre-filters of every kind
+func (g *genState) reqsC03(docs map[uuid.UUID]Val) []requestSpec {
+	r := g.r
+	var out []requestSpec
+	ix := g.schema[0]
+	for k := 0; k < 6; k++ {
+		q := querySpec{kind: "vamana", prop: ix.path, vec: g.genVec(ix.dim)}
+		q.search = []int{25, 30, 50, 75}[r.IntN(4)]
+		switch r.IntN(3) {
+		case 0:
+			q.limit = 1 + r.IntN(q.search)
+		case 1:
+			q.limit = 1 + r.IntN(3)
+		default:
+			q.limit = 1 + r.IntN(len(docs)+2)
+			if q.limit > q.search {
+				q.limit = q.search
+			}
+		}
+		if r.IntN(2) == 0 {
+			w := weightPool[r.IntN(len(weightPool))]
+			q.weight = &w
+		}
+		if r.IntN(2) == 0 {
+			if f, ok := g.genFilter(1); ok {
+				q.filter = &f
+			}
+		}
+		out = append(out, requestSpec{q: q})
 	}
 	return out
 }
